@@ -1,6 +1,7 @@
 #![no_main]
-//! libFuzzer target `strat`: structured fuzzing of one property (DLTVERIF_ORACLE=Cxx).  The input bytes are the
-//! entropy source of that property's proptest strategy (pass-through RNG); the oracle is the property's `check`.
+//! libFuzzer target `strat`: structured fuzzing of one property (DLTVERIF_ORACLE=Cxx).  The input bytes are
+//! decoded by a hand-written data-provider layer (harness/src/props/structured.rs) into the property's `Case`
+//! (well-formed message, schedule, filter ...); the oracle is the property's own `check`.
 use libfuzzer_sys::fuzz_target;
 use std::sync::OnceLock;
 
@@ -8,7 +9,7 @@ static ORACLE: OnceLock<String> = OnceLock::new();
 
 fuzz_target!(|data: &[u8]| {
     let prop = ORACLE.get_or_init(|| std::env::var("DLTVERIF_ORACLE").unwrap_or_else(|_| "C01".to_string()));
-    if let Some(o) = dltverif::props::structured::run(prop, data, false) {
+    if let Some(o) = dltverif::props::structured::run(prop, data) {
         if let Err(v) = o.result {
             eprintln!("VIOLATION-IN-TARGET property={} signature={}\n  {}", prop, v.sig, v.msg);
             std::process::abort();
